@@ -197,6 +197,25 @@ def fanout_graph(windows=(4, 1), rates=(20, 10, 10), delays=(0.004, 0.004), thir
     return nodes, cg, g
 
 
+def sink_graph(rates=(10, 20, 10), ts_max=0.4, num_episodes=1, supergraph=None, node_cls=ProbeNode, seed=0, **gkw):
+    """sensor(node2) -> agent(node1, supervisor) -> logger(node3): the logger only consumes, it is not an ancestor of the supervisor and is
+    left out of the supergraph by the default prune=True."""
+    from distrax import Deterministic as D
+    from rex.artificial import generate_graphs
+    from rex.constants import Supergraph
+    from rex.graph import Graph
+
+    n1 = node_cls(name="node1", rate=rates[0], delay_dist=D(0.01))
+    n2 = node_cls(name="node2", rate=rates[1], delay_dist=D(0.005))
+    n3 = node_cls(name="node3", rate=rates[2], delay_dist=D(0.002))
+    nodes = {n.name: n for n in [n1, n2, n3]}
+    n1.connect(n2, window=2, blocking=False, delay_dist=D(0.004))
+    n3.connect(n1, window=1, blocking=False, delay_dist=D(0.003))
+    cg = generate_graphs(nodes, ts_max, rng=jax.random.PRNGKey(seed), num_episodes=num_episodes)
+    g = Graph(nodes=nodes, supervisor=n1, graphs_raw=cg, supergraph=supergraph or Supergraph.MCS, progress_bar=False, **gkw)
+    return nodes, cg, g
+
+
 def random_graph(seed=0, n_nodes=3, ts_max=0.4, num_episodes=1, supergraph=None, node_cls=ProbeNode, **gkw):
     """seeded random topology: node1 is the supervisor; every node k > 1 feeds at least one lower-numbered node (so everything is an ancestor
     of the supervisor), extra forward links and one skipped feedback link are drawn at random; rates, windows and delays are drawn from small sets."""
